@@ -411,7 +411,11 @@ func (e *Explorer) runPath(m *Machine, q queued) {
 	// sample
 	var sample map[string]any
 	if m.path.modelOK || m.ensureModelQuiet() {
-		sample = map[string]any{"outcome": outcome, "inputs": m.concreteVals(m.path.model), "job": job.Params}
+		jobCopy := map[string]string{}
+		for k, v := range job.Params {
+			jobCopy[k] = v
+		}
+		sample = map[string]any{"outcome": outcome, "inputs": m.concreteVals(m.path.model), "job": jobCopy}
 		if len(m.path.notes) > 0 {
 			sample["notes"] = m.path.notes
 		}
